@@ -51,16 +51,24 @@ func (s psel) matches(t ptype) bool {
 		return false
 	}
 	if s.hasNth {
-		// An+B over the 1-based page number, n >= 0
-		d := t.index + 1 - s.b
-		if s.a == 0 {
-			return d == 0
+		// An+B over the 1-based page number: "there is an n >= 0 with a*n + b = number", by search
+		// (no division: the signs of / and % are what the implementation can get wrong)
+		number, hit := t.index+1, false
+		for n := 0; n <= number+maxAbs(s.b) && !hit; n++ {
+			hit = s.a*n+s.b == number
 		}
-		if d%s.a != 0 || d/s.a < 0 {
+		if !hit {
 			return false
 		}
 	}
 	return true
+}
+
+func maxAbs(v int) int {
+	if v < 0 {
+		return -v
+	}
+	return v
 }
 
 // spec: (f, g, h) = (named page, :first/:blank, :left/:right). The specificity of :nth() is
